@@ -467,7 +467,7 @@ func Extract(files []protoreflect.FileDescriptor) *Contract {
 // options may arrive as dynamic messages (compiled from text): re-marshal into the Go types.
 func messagingConfig(sd protoreflect.ServiceDescriptor) *messaging_j5pb.ServiceConfig {
 	out := &messaging_j5pb.ServiceConfig{}
-	if !extractExt(sd.Options(), messaging_j5pb.E_Service.TypeDescriptor(), out) {
+	if !ExtractExt(sd.Options(), messaging_j5pb.E_Service.TypeDescriptor(), out) {
 		return nil
 	}
 	return out
@@ -475,7 +475,7 @@ func messagingConfig(sd protoreflect.ServiceDescriptor) *messaging_j5pb.ServiceC
 
 func httpRule(md protoreflect.MethodDescriptor) *annotations.HttpRule {
 	out := &annotations.HttpRule{}
-	if !extractExt(md.Options(), annotations.E_Http.TypeDescriptor(), out) {
+	if !ExtractExt(md.Options(), annotations.E_Http.TypeDescriptor(), out) {
 		return nil
 	}
 	return out
@@ -483,7 +483,7 @@ func httpRule(md protoreflect.MethodDescriptor) *annotations.HttpRule {
 
 // ExtractExt copies the value of an extension (by field number) from an options
 // message — typed, dynamic or still unknown bytes — into out.
-func extractExt(opts proto.Message, xt protoreflect.ExtensionTypeDescriptor, out proto.Message) bool {
+func ExtractExt(opts proto.Message, xt protoreflect.ExtensionTypeDescriptor, out proto.Message) bool {
 	if opts == nil || !opts.ProtoReflect().IsValid() {
 		return false
 	}
